@@ -188,6 +188,7 @@ def region_rcb_param(case):
     return any(_RCB.search(v) for v in _values(case))
 
 
+SHRINK_STRINGS = True
 REGIONS = {"rcb-param-value": region_rcb_param}
 
 # ----------------------------------------------------------------------------- streams
